@@ -43,6 +43,10 @@ func c10(c *Ctx) {
 	sCommitCoversConfig(c, "R10/S-COMMITCFG")
 	c02R1(c, "R11/C02.R1")
 	c02R2(c, "R11/C02.R2")
+	// what a restart finds: the newest durable snapshot is complete and carries
+	// the committed configuration of its index
+	sInstallDurable(c, "R12/S-DURABLE")
+	c11R4(c, "R12/C11.R4")
 }
 
 func c10R1(c *Ctx, rule string) {
